@@ -80,24 +80,38 @@ func TestVerifC16(t *testing.T) {
 			header          bool
 			mustRefuse      bool
 			mustForwardOnce bool
+			pad             string
 		}
 		var cases []tc
 		for _, header := range []bool{false, true} {
 			cases = append(cases,
-				tc{"forbidden-here-only", "forbidden-ns", "", false, header, true, false},
-				tc{"allowed-here-forbidden-elsewhere", "allowed-ns", "forbidden-ns", false, header, true, false},
-				tc{"allowed-everywhere", "allowed-ns", "plain-allowed", false, header, false, true},
-				tc{"forbidden-here-only/translation-configured", "forbidden-ns", "", true, header, true, false},
+				tc{"forbidden-here-only", "forbidden-ns", "", false, header, true, false, ""},
+				tc{"allowed-here-forbidden-elsewhere", "allowed-ns", "forbidden-ns", false, header, true, false, ""},
+				tc{"allowed-everywhere", "allowed-ns", "plain-allowed", false, header, false, true, ""},
+				tc{"forbidden-here-only/translation-configured", "forbidden-ns", "", true, header, true, false, ""},
 			)
 		}
 		// translation on, no bypass header: remote names are judged after translation
 		cases = append(cases,
-			tc{"remote-name-mapped-to-forbidden", "remote-bad", "", true, false, true, false},
-			tc{"remote-name-mapped-to-allowed", "remote-ok", "", true, false, false, true},
-			tc{"allowed-here-remote-forbidden-elsewhere", "remote-ok", "remote-bad", true, false, true, false},
+			tc{"remote-name-mapped-to-forbidden", "remote-bad", "", true, false, true, false, ""},
+			tc{"remote-name-mapped-to-allowed", "remote-ok", "", true, false, false, true, ""},
+			tc{"allowed-here-remote-forbidden-elsewhere", "remote-ok", "remote-bad", true, false, true, false, ""},
 		)
+		// histories: the same cases with an event of a type that carries no namespace before / after the event on the
+		// path (in a serialized batch and in a plain History alike)
+		if vrt.PathEventType(p) != "" || vrt.PathBlobField(p) != "" {
+			for _, c := range cases[:len(cases):len(cases)] {
+				if c.kind == "forbidden-here-only" || c.kind == "remote-name-mapped-to-forbidden" {
+					for _, pad := range []string{"skippable-event-before", "skippable-event-after"} {
+						c2 := c
+						c2.kind, c2.pad = c.kind+"/"+pad, pad
+						cases = append(cases, c2)
+					}
+				}
+			}
+		}
 		for _, c := range cases {
-			msg := vfBuildAt(j.root, p, c.here, false)
+			msg := vfBuildAtPadded(j.root, p, c.here, c.pad)
 			if c.other != "" {
 				if len(j.paths) < 2 {
 					continue
@@ -137,11 +151,29 @@ func TestVerifC16(t *testing.T) {
 	res.Set("evaluations", evals)
 	res.Set("distinct_nontrivial", nontrivial)
 	res.Set("request_paths", int64(len(jobs)))
-	res.Set("rule", "every request type of WorkflowService and AdminService x every structural namespace path (incl. blob-encoded ones) x {forbidden here only, allowed here + forbidden at the next path, allowed everywhere} x {bypass header, no header} through ACL alone and through translation -> ACL (chain order of makeServerOptions), plus remote names that map to an allowed / a forbidden local name; non-trivial = must be refused")
+	res.Set("rule", "every request type of WorkflowService and AdminService x every structural namespace path (incl. blob-encoded ones) x {forbidden here only, allowed here + forbidden at the next path, allowed everywhere} (for paths through history events also with a namespace-free event before / after the one on the path) x {bypass header, no header} through ACL alone and through translation -> ACL (chain order of makeServerOptions), plus remote names that map to an allowed / a forbidden local name; non-trivial = must be refused")
 	res.Set("exhaustive", true)
 	if len(jobs) > 0 {
 		res.Sample(map[string]any{"root": jobs[0].root.String(), "path": jobs[0].paths[jobs[0].i].String(), "case": "forbidden-here-only"})
 		res.Sample(map[string]any{"root": jobs[len(jobs)-1].root.String(), "path": jobs[len(jobs)-1].paths[jobs[len(jobs)-1].i].String(), "case": "remote-name-mapped-to-forbidden"})
 	}
 	res.Assume("the interceptor chain is assembled as makeServerOptions does (translation before ACL); the wiring part of this check verifies that order end to end on a real ClusterConnection")
+}
+
+// vfBuildAtPadded is vfBuildAt with, in every repeated HistoryEvent field on the way, one more event of a type that
+// carries no namespace before or after the event on the path.
+func vfBuildAtPadded(root vfRoot, p vrt.Path, value string, pad string) proto.Message {
+	o := vrt.BuildOpts{
+		SetLeaf: func(m protoreflect.Message, leaf protoreflect.FieldDescriptor) {
+			m.Set(leaf, protoreflect.ValueOfString(value))
+		},
+		Decorate: vrt.DecorateEvent,
+	}
+	switch pad {
+	case "skippable-event-before":
+		o.Pad = vrt.PadSkippableEvent
+	case "skippable-event-after":
+		o.PadAfter = vrt.PadSkippableEvent
+	}
+	return vrt.BuildForPath(root.MD, p, o)
 }
